@@ -443,7 +443,7 @@ def run(ctx):
         "check well-formedness); scripts never skip from a stray break / odd map / wrong chunk kind",
         "error codes are not compared, only success versus failure; allocation cannot fail",
         "string payloads follow an arithmetic pattern mod 256 generated by the adapter from script arguments",
-        "exhaustive only on the model (item sequences <= 4 over 23 items; decoder programs <= 5 calls over sequences <= 3)",
+        "exhaustive only on the model (item sequences <= 4 over 19 items; decoder programs <= 5 calls over sequences <= 3)",
     ]
     # 1. design level
     if not os.environ.get("VERIF_C10_SKIP_MC"):      # development aid for mutation runs (the model does not depend on the library)
